@@ -1,7 +1,9 @@
+pub mod alloc_count;
 pub mod checks;
 pub mod curve;
 pub mod dispatch;
 pub mod fe;
+pub mod mutate;
 pub mod gadget;
 pub mod naive;
 pub mod prog;
@@ -10,3 +12,6 @@ pub mod refver;
 pub mod runner;
 pub mod spec;
 pub mod sys;
+
+#[global_allocator]
+static GLOBAL: alloc_count::Counting = alloc_count::Counting;
